@@ -5,7 +5,9 @@
 # 3. demo without the patch  -> the demo must PASS
 # 4. patch applied to /repo  -> ./check <ID> quick must exit 1 with a VIOLATION line; /repo restored
 ID=$1; DEMO=$2; WT=${SEED_WT:-/tmp/wt-$ID}; OUT=$WT/OUT
+STEPS=${STEPS:-1234}
 cd $WT || exit 2
+if [[ $STEPS == *1* ]]; then
 git checkout -q -- . ; git clean -qfd crates 2>/dev/null
 git apply OUT/patch.diff || { echo "PATCH DOES NOT APPLY"; exit 2; }
 echo "== suite with the change"
@@ -17,6 +19,8 @@ git apply -R OUT/patch.diff
 echo "== demo without the change (must pass)"
 ( eval "$DEMO" ) > $OUT/verify_demo_without.txt 2>&1; echo "exit=$?" | tee -a $OUT/verify_demo_without.txt; grep -E "^test result" $OUT/verify_demo_without.txt | head -5
 git checkout -q -- . ; git clean -qfd crates 2>/dev/null
+fi
+[[ $STEPS == *4* ]] || exit 0
 echo "== my check with the change applied to /repo"
 cd /repo && git status --short | grep -v '^??' | head -3
 git -C /repo apply $OUT/patch.diff || { echo "PATCH DOES NOT APPLY TO /repo"; exit 2; }
